@@ -606,7 +606,7 @@ fn load_program_from_reader<R: Read + Seek>(r: &mut R, total_len: u64) -> MResul
     let mut symbols_bytes = vec![0u8; header.symbols_len as usize];
     r.read_exact(&mut symbols_bytes)?;
     let mut cur = Cursor::new(&symbols_bytes[..]);
-    for _ in 0..(header.symbols_len / 12) {
+    for _ in 0..(header.symbols_len / 13) { // id (8) + mutable (1) + register (4)
       let id = cur.read_u64::<LittleEndian>()?;
       let mutable = cur.read_u8()? != 0;
       let reg = cur.read_u32::<LittleEndian>()?;
